@@ -38,10 +38,10 @@ type concPubSub struct {
 	subVersion  byte
 	recvMax     uint16 // 0 = absent
 	maxInflight uint16
-	lateSub     bool // a second client subscribes (QoS 0) concurrently
-	takeover    bool // the subscriber's connection is displaced concurrently (clean start 0)
-	unsub       bool // the late subscriber also unsubscribes concurrently (separate thread, after its SUBACK)
-	subMaxPkt   uint32 // subscriber's Maximum Packet Size (0 = absent)
+	lateSub     bool     // a second client subscribes (QoS 0) concurrently
+	takeover    bool     // the subscriber's connection is displaced concurrently (clean start 0)
+	unsub       bool     // the late subscriber also unsubscribes concurrently (separate thread, after its SUBACK)
+	subMaxPkt   uint32   // subscriber's Maximum Packet Size (0 = absent)
 	big         [][]bool // per publisher, per message: payload padded beyond subMaxPkt
 }
 
